@@ -131,7 +131,14 @@ DropView == /\ viewRef /\ steps < MaxSteps
             /\ UNCHANGED <<viewList, memCache, nfiles, hold, st, kind, n, del>>
             /\ Log(0, "dropview", 0)
 
-Next == DropView \/ \E i \in Its : Iter(i) \/ NextNoCache(i) \/ NextFromCache(i) \/ Drop(i)
+\* the user calls view.clearcache(): the view forgets its caches; iterators keep what they bound at iter()
+ClearCache == /\ viewRef /\ steps < MaxSteps
+              /\ (viewList # 0 \/ memCache)            \* (on an empty cache the call changes nothing: not a step)
+              /\ viewList' = 0 /\ memCache' = FALSE
+              /\ UNCHANGED <<viewRef, nfiles, hold, st, kind, n, del>>
+              /\ Log(0, "clearcache", 0)
+
+Next == DropView \/ ClearCache \/ \E i \in Its : Iter(i) \/ NextNoCache(i) \/ NextFromCache(i) \/ Drop(i)
 Spec == Init /\ [][Next]_vars
 View == <<P, viewRef, viewList, memCache, nfiles, hold, st, kind, n, del>>
 ----------------------------------------------------------------------------
